@@ -101,6 +101,22 @@ ONE_INSN = """requires %(PRE)s, old(self).cur().lasti == old(self).cur().codeobj
         !(%(WRITTEN)s) ==> final(self).cur() == old(self).cur(),"""
 
 
+def sn_copy(src, f, common):
+    from vlib import rules
+    sn = Snippet(src.fn(f, impl=r'PyCodeGenerator'), 'PyCodeGenerator::' + f)
+    common(sn)
+    sn.rw('R3', r'(?m)^\s*debug_power_assert!\([^;]*\);\s*\n', '', code_only=False)
+    rules.aborts(sn)
+    sn.rw('R6', r'\bext_abort\(\)', 'ext_abort::<()>()')
+    # R5: write_instr<C: Into<u8>> is monomorphised to u8; `impl From<Enum> for u8` of impl_u8_enum! is `op as u8`
+    sn.rw('R5', r'self\.write_instr\(((?:\w+::)?\w+)\)', r'self.write_instr(\1 as u8)', expect='+')
+    sn.rw('R5', r'\bPOP_TOP as u8', 'CommonOpcode::POP_TOP as u8')
+    sn.rw('R9', r'self\.write_bytes\(&\[0; (\d+)\]\)', r'self.write_bytes(w_zeros(\1).as_slice())')
+    # the comparison operator of _emit_compare_op: only its number matters
+    sn.rw('R5', r'op: CompareOp\b', 'op: u8')
+    return sn
+
+
 def add_emitters(run, unit, src, common, PRE, FRAME):
     from vlib.extract import Source as _S
     tab = interpreter_table()
@@ -124,20 +140,18 @@ def add_emitters(run, unit, src, common, PRE, FRAME):
         'emit_push_null': dict(EXTRA_PRE="old(self).cur().stack_len < u32::MAX,", WRITTEN="(old(self).py_version.minor->0 >= 11)", OPS="opc == Opcode311::PUSH_NULL as int", ARG="0"),
     }
     for (f, d) in specs.items():
-        sn = Snippet(src.fn(f, impl=r'PyCodeGenerator'), 'PyCodeGenerator::' + f)
-        common(sn)
-        sn.rw('R3', r'(?m)^\s*debug_power_assert!\([^;]*\);\s*\n', '', code_only=False)
-        from vlib import rules
-        rules.aborts(sn)
-        sn.rw('R6', r'\bext_abort\(\)', 'ext_abort::<()>()')
-        # R5: write_instr<C: Into<u8>> is monomorphised to u8; `impl From<Enum> for u8` of impl_u8_enum! is `op as u8`
-        sn.rw('R5', r'self\.write_instr\(((?:\w+::)?\w+)\)', r'self.write_instr(\1 as u8)', expect='+')
-        sn.rw('R5', r'\bPOP_TOP as u8', 'CommonOpcode::POP_TOP as u8')
-        sn.rw('R9', r'self\.write_bytes\(&\[0; (\d+)\]\)', r'self.write_bytes(w_zeros(\1).as_slice())')
-        # the comparison operator of _emit_compare_op: only its number matters
-        sn.rw('R5', r'op: CompareOp\b', 'op: u8')
+        sn = sn_copy(src, f, common)
         d = dict(d, PRE=PRE, FRAME=FRAME)
-        sn.contract(ONE_INSN % d)
+        spec = ONE_INSN % d
+        sn.contract(spec)
         unit.add(sn)
+        if f in ('dup_top', '_emit_compare_op', 'emit_push_null'):
+            # vacuity probe: the same text under the same precondition with `ensures false` must be rejected
+            pr = sn_copy(src, f, common)
+            pr.rename_fn(f + '__vacuity_probe')
+            pr.contract(spec.split('ensures')[0] + 'ensures false,')
+            pr.label = 'vacuity-probe PyCodeGenerator::' + f
+            unit.add(pr)
+            run.extra.setdefault('vacuity_probe_labels', []).append(pr.label)
     run.sample({"function": "PyCodeGenerator::emit_pop_top / emit_print_expr / _emit_compare_op / rot2 / dup_top / copy / emit_push_null",
                 "ensures": "append exactly one instruction (opcode, argument, and on 3.11 the zeroed inline cache entries of opcode._inline_cache_entries) and move the tracked stack depth by dis.stack_effect of that instruction under the target interpreter (3.7-3.11); nothing else changes"})
